@@ -10,7 +10,7 @@ observed through objects the harness owns (nothing in /repo is touched):
   source `__next__`            -> pull i / srcEnd / srcExc
   `head.value` get / set       -> hget isNone / hset         (`_tee.SimpleNamespace` shadow)
   `TeeX.next` get / set        -> nget box isNone / nset box new   (`_tee.TeeX` replaced by a subclass)
-  `TeeX.n` set / get           -> inc box newcount / ncmp box count   (the read inside `+=` is folded into inc)
+  `TeeX.n` get / set           -> ncmp box count / inc box newcount   (`box.n += 1` = one ncmp then one inc)
   source lock acquire/release  -> acq ok / rel               (`_tee.threading` shadow)
   box lock acquire/release     -> bacq box / brel box
   window `Queue._put/_get`     -> put box / get box          (`_tee.queue` shadow)
@@ -395,14 +395,7 @@ def run_case(case):
     if e is None and s.deadlock_info:
         # the scheduler found a deadlock / ran out of steps, but the unwinding let main() return
         e = detsched.Deadlock(s.deadlock_info)
-    # `box.n += 1` reads and writes within one line: drop the read that belongs to the increment,
-    # what remains of the `ncmp` events is the separate line `if box.n == self.n_forks`
-    evs = []
-    for x in ctx.ev:
-        if x[0] == 'inc' and evs and evs[-1][0] == 'ncmp' and evs[-1][1] == x[1] and evs[-1][2] == x[2] \
-                and evs[-1][3] + 1 == x[3]:
-            evs.pop()
-        evs.append(list(x))
+    evs = [list(x) for x in ctx.ev]
     if e is not None and len(evs) > 700:
         evs = evs[:700]          # a hung run spins; the prefix is what gets validated and stored
     res = dict(events=evs, steps=s.steps, switches=s.switches,
